@@ -102,6 +102,22 @@ def check_message(H, m, suffix, ctx):
                                                                   got=again[:64] if isinstance(again, bytes) else again, reference=ref[:64]),
                       dict(kind="msg", msg=m, suffix=suffix))
         ok = False
+    # a message derived from the decoded one (dataclasses.replace, as the library's own reply helpers do) is a message too:
+    # its length field follows ITS payload
+    import dataclasses
+    other = m["payload"][: len(m["payload"]) // 2] + b"\x5a" * (3 if len(m["payload"]) % 2 else 0)
+    try:
+        derived = bytes(dataclasses.replace(parsed, payload=other, session_id=(m["sess"] + 1) & 0xFFFF).build())
+    except Exception as exc:  # noqa: B902
+        derived = repr(exc)
+    want = refwire.encode_someip(dict(m, payload=other, sess=(m["sess"] + 1) & 0xFFFF))
+    ctx.count("derived_message_encoded")
+    if derived != want:
+        ctx.violation("message-derived-from-a-decoded-one-encodes-wrongly",
+                      dict(msg=dict(m, payload=m["payload"][:32]), new_payload_len=len(other),
+                           got=derived[:24] if isinstance(derived, bytes) else derived, reference=want[:24]),
+                      dict(kind="msg", msg=m, suffix=suffix))
+        ok = False
     # the reference decoder must read the library's bytes the same way
     rm, rrest = refwire.decode_someip(bytes(built) + suffix)
     if rm != dict(m, pv=1) or rrest != suffix:
